@@ -185,8 +185,27 @@ class Deps:
                             self.defs.setdefault(x.id, []).append((s.value, list(guards)))
                     if isinstance(t, ast.Attribute) and isinstance(t.value, ast.Name) and t.value.id == self.selfname:
                         self.defs.setdefault("self." + t.attr, []).append((s.value, list(guards)))
+                    # x[i] = v / x[i][j] = v : an element store into a local is a (partial) definition of the local - by v and by the position
+                    b, idx = t, []
+                    while isinstance(b, ast.Subscript):
+                        idx.append(b.slice)
+                        b = b.value
+                    if idx and isinstance(b, ast.Name) and b.id != self.selfname:
+                        self.defs.setdefault(b.id, []).append((ast.Tuple(elts=[s.value] + idx, ctx=ast.Load()), list(guards)))
             elif isinstance(s, ast.AugAssign) and isinstance(s.target, ast.Name):
                 self.defs.setdefault(s.target.id, []).append((s.value, list(guards)))
+            elif isinstance(s, ast.AugAssign) and isinstance(s.target, ast.Subscript):
+                b, idx = s.target, []
+                while isinstance(b, ast.Subscript):
+                    idx.append(b.slice)
+                    b = b.value
+                if isinstance(b, ast.Name) and b.id != self.selfname:
+                    self.defs.setdefault(b.id, []).append((ast.Tuple(elts=[s.value] + idx, ctx=ast.Load()), list(guards)))
+            elif isinstance(s, ast.Expr) and isinstance(s.value, ast.Call) and isinstance(s.value.func, ast.Attribute) and isinstance(s.value.func.value, ast.Name) \
+                    and s.value.func.value.id != self.selfname and s.value.func.attr in ("append", "extend", "insert", "add", "update", "setdefault", "appendleft"):
+                # x.append(v): what x holds afterwards depends on v as well
+                c = s.value
+                self.defs.setdefault(c.func.value.id, []).append((ast.Tuple(elts=list(c.args) + [k.value for k in c.keywords], ctx=ast.Load()), list(guards)))
             elif isinstance(s, ast.For):
                 for x in ast.walk(s.target):
                     if isinstance(x, ast.Name):
